@@ -591,3 +591,55 @@ func ruleVersion13Refused(c *Ctx, r *Report) {
 		}
 	}
 }
+
+// ruleSnapshotLive (C09 / C19): ConnectionState hands out a snapshot taken from the live state
+// during this very call. The snapshot carries the record sequence counter that an importer
+// continues from; a snapshot served from a cache would make a resumed connection reuse
+// (epoch, sequence) pairs the original already emitted.
+func ruleSnapshotLive(c *Ctx, r *Report) {
+	const rule = "snapshot-live"
+	fn := c.need(r, rule, "(*dtls.Conn).ConnectionState")
+	if fn == nil {
+		return
+	}
+	r.Sites += len(fn.Blocks)
+	n := 0
+	for _, b := range fn.Blocks {
+		ret, ok := b.Instrs[len(b.Instrs)-1].(*ssa.Return)
+		if !ok || len(ret.Results) != 2 || b == fn.Recover {
+			continue
+		}
+		res := retResults(ret)
+		if k, isC := constBool(res[1]); isC && !k {
+			continue
+		}
+		n++
+		good := false
+		why := "the returned State is not the result of a generateState call made in this invocation"
+		for _, l := range c.Origins(res[0], 0) {
+			u, isLoad := l.(*ssa.UnOp)
+			if !isLoad {
+				good = false
+				why = "returned value originates from " + c.describe(l)
+				break
+			}
+			call, _ := callOfResult(u.X)
+			if call == nil || !strings.Contains(calleeName(&call.Call), "generateState") {
+				good = false
+				why = "returned value is loaded from " + c.describe(u.X) + ", not from a fresh generateState result"
+				break
+			}
+			if !instrDominates(call, ret) {
+				good = false
+				why = "the generateState call does not precede this return on every path"
+				break
+			}
+			good = allLeaves(c.Origins(call.Call.Args[0], 0), func(v ssa.Value) bool { return isFieldLoad(v, "dtls.Conn", "state") })
+			if !good {
+				why = "generateState is not applied to Conn.state"
+			}
+		}
+		r.Check(good, rule, fmt.Sprintf("%s:return%d", short(fn), n), c.ipos(ret), "the snapshot is generated from Conn.state during this call", "ConnectionState can return a State that was not generated from the live connection state during this call (cached or stale snapshot: the exported sequence counter lags behind the records already sent): "+why)
+	}
+	r.Floor(rule, n, 1)
+}
